@@ -6,17 +6,22 @@ package smtp
 // submission endpoint, nothing reaches the target without one) is evaluated on the replies.
 
 import (
+	"context"
 	"encoding/base64"
+	"errors"
 	"fmt"
 	"go/ast"
 	"net"
 	"net/textproto"
 	"strconv"
 	"strings"
+	"sync"
 	"testing"
 	"time"
 
 	"github.com/foxcpp/maddy/framework/config"
+	"github.com/foxcpp/maddy/framework/exterrors"
+	"github.com/foxcpp/maddy/framework/module"
 	"github.com/foxcpp/maddy/internal/testutils"
 	"github.com/foxcpp/maddy/internal/verifshim/vauth"
 	"github.com/foxcpp/maddy/internal/verifshim/vh"
@@ -30,7 +35,59 @@ const (
 type c14GateScn struct {
 	required bool
 	login    bool
-	cmds     []string // E N S M R D  Ap:<authzid>:<u>:<p>  Al:<u>:<p>  Ax
+	// E N S M R D  Ap:<authzid>:<u>:<p>  Al:<u>:<p>  Ax ; every command may carry a suffix /r /t /x: what the
+	// endpoint's early (connection-level) check answers IF it is run while this command is processed
+	// (r: rejection 550, t: temporary failure 451, x: error without SMTP annotations; no suffix: it passes)
+	cmds []string
+
+	genStats []string
+}
+
+// c14EarlyCheck is the scripted connection-level check of the gate endpoints: a module.Check (it lets every message
+// through) that is also a module.EarlyCheck whose verdict is whatever the harness has set for the command in progress.
+type c14EarlyCheck struct {
+	*testutils.Check
+	mu      sync.Mutex
+	verdict byte
+	calls   int
+}
+
+func (c *c14EarlyCheck) set(v byte) {
+	c.mu.Lock()
+	c.verdict = v
+	c.mu.Unlock()
+}
+
+func (c *c14EarlyCheck) takeCalls() int {
+	c.mu.Lock()
+	defer c.mu.Unlock()
+	n := c.calls
+	c.calls = 0
+	return n
+}
+
+func (c *c14EarlyCheck) CheckConnection(ctx context.Context, state *module.ConnState) error {
+	c.mu.Lock()
+	v := c.verdict
+	c.calls++
+	c.mu.Unlock()
+	switch v {
+	case 'r':
+		return &exterrors.SMTPError{Code: 550, EnhancedCode: exterrors.EnhancedCode{5, 7, 1}, Message: "scripted early check: rejected", CheckName: "c14_early"}
+	case 't':
+		return &exterrors.SMTPError{Code: 451, EnhancedCode: exterrors.EnhancedCode{4, 7, 1}, Message: "scripted early check: try again later", CheckName: "c14_early"}
+	case 'x':
+		return errors.New("scripted early check: plain error")
+	}
+	return nil
+}
+
+// a command token without its early-check suffix, and the suffix (0: the check passes)
+func c14SplitCmd(tok string) (string, byte) {
+	if n := len(tok); n > 2 && tok[n-2] == '/' {
+		return tok[:n-2], tok[n-1]
+	}
+	return tok, 0
 }
 
 func (s *c14GateScn) line() string {
@@ -58,8 +115,11 @@ func c14ParseGate(line string) (*c14GateScn, error) {
 }
 
 func c14GenAuth(r *vh.Rng, goodPct int) string {
-	users := []string{c14User, c14User, "User@example.org", "other", ""}
-	pws := []string{c14Pass, c14Pass, "wrong", "", c14Pass + " "}
+	users := []string{c14User, c14User, "User@example.org", "other", "",
+		// the account's name inside white space / control characters / other wrapping: these are OTHER user names
+		c14User + " ", " " + c14User, c14User + "\r\n", "\t" + c14User, c14User + "\u00a0", "\u3000" + c14User, c14User + "\n",
+		"<" + c14User + ">", c14User + ".", "\ufeff" + c14User}
+	pws := []string{c14Pass, c14Pass, c14Pass, "wrong", "", c14Pass + " ", " " + c14Pass, c14Pass + "\r\n"}
 	var u, p string
 	if r.Chance(goodPct) {
 		u, p = c14User, c14Pass
@@ -69,7 +129,7 @@ func c14GenAuth(r *vh.Rng, goodPct int) string {
 	if r.Chance(4) {
 		return "Ax"
 	}
-	if r.Bool() {
+	if r.Bool() && !strings.Contains(u, "\x00") {
 		az := ""
 		switch y := r.Intn(10); {
 		case y < 2:
@@ -87,7 +147,8 @@ func c14GenAuth(r *vh.Rng, goodPct int) string {
 func c14NoEhloInTx(cmds []string) []string {
 	inTx := false
 	for i, c := range cmds {
-		switch c {
+		base, _ := c14SplitCmd(c)
+		switch base {
 		case "M":
 			inTx = true
 		case "S":
@@ -96,6 +157,59 @@ func c14NoEhloInTx(cmds []string) []string {
 			if inTx {
 				cmds[i] = "S"
 				inTx = false
+			}
+		}
+	}
+	return cmds
+}
+
+// the world changes under the connection: what the early check would answer differs from command to command.
+// On this tree the check is consulted when a connection gets its session (the first accepted EHLO) and never again, so
+// a verdict that turns bad afterwards must not change any reply — in particular a failed AUTH stays a failed AUTH and
+// an AUTH that is answered negatively for ANY reason leaves the connection unauthenticated.
+func c14EarlyVerdicts(r *vh.Rng, cmds []string, st func(string)) []string {
+	bad := func() string { return "/" + r.Pick("r", "r", "t", "t", "x") }
+	switch x := r.Intn(100); {
+	case x < 45: // the check always passes
+		st("gate.early.always-passes")
+	case x < 75: // passes for the greeting, turns bad later: from the first AUTH on / at one AUTH only / from a random point on
+		st("gate.early.passes-at-ehlo-then-turns-bad")
+		from, only := -1, r.Chance(35)
+		for i, c := range cmds {
+			if c[0] == 'A' && (from < 0 || r.Chance(30)) {
+				from = i
+			}
+		}
+		if from < 0 || r.Chance(20) {
+			from = 1 + r.Intn(len(cmds))
+		}
+		v := bad()
+		for i := range cmds {
+			if i == from || (i > from && !only) {
+				cmds[i] += v
+			}
+		}
+	case x < 87: // bad for the first greeting(s); the client carries on regardless, or greets again
+		st("gate.early.bad-at-first-ehlo")
+		v := bad()
+		n := 1 + r.Intn(2)
+		for i := range cmds {
+			if i < n || r.Chance(10) {
+				cmds[i] += v
+			}
+		}
+		if r.Chance(60) && len(cmds) < 14 {
+			at := n + r.Intn(len(cmds)-n+1)
+			if at > len(cmds) {
+				at = len(cmds)
+			}
+			cmds = append(cmds[:at:at], append([]string{"E"}, cmds[at:]...)...)
+		}
+	default: // anything anywhere
+		st("gate.early.random")
+		for i := range cmds {
+			if r.Chance(40) {
+				cmds[i] += bad()
 			}
 		}
 	}
@@ -135,6 +249,7 @@ func c14GenGate(r *vh.Rng, required, login bool) *c14GateScn {
 		if len(cmds) > 14 {
 			cmds = cmds[:14]
 		}
+		cmds = c14EarlyVerdicts(r, cmds, func(k string) { s.genStats = append(s.genStats, k) })
 		s.cmds = c14NoEhloInTx(cmds)
 		return s
 	}
@@ -161,6 +276,7 @@ func c14GenGate(r *vh.Rng, required, login bool) *c14GateScn {
 			s.cmds = append(s.cmds, c14GenAuth(r, 55))
 		}
 	}
+	s.cmds = c14EarlyVerdicts(r, s.cmds, func(k string) { s.genStats = append(s.genStats, k) })
 	s.cmds = c14NoEhloInTx(s.cmds)
 	return s
 }
@@ -187,9 +303,14 @@ func b64(s string) string {
 }
 
 // run one scenario on a fresh connection; returns the reply codes
-func c14RunGate(t *testing.T, out *vh.Out, tgt *testutils.Target, s *c14GateScn) {
+func c14RunGate(t *testing.T, out *vh.Out, tgt *testutils.Target, early *c14EarlyCheck, s *c14GateScn) {
 	line := s.line()
 	tgt.Messages = nil
+	early.set(0)
+	early.takeCalls()
+	for _, k := range s.genStats {
+		out.Stat(k)
+	}
 	c, err := net.Dial("tcp", "127.0.0.1:"+testPort)
 	if err != nil {
 		t.Fatal(err)
@@ -202,9 +323,16 @@ func c14RunGate(t *testing.T, out *vh.Out, tgt *testutils.Target, s *c14GateScn)
 	}
 	var codes []string
 	authed := false
-	for i, cmd := range s.cmds {
+	failedGoodAuth := false // an AUTH with the account's own credentials was answered negatively
+	for i, tok := range s.cmds {
 		var code int
 		var err error
+		cmd, verdict := c14SplitCmd(tok)
+		if verdict != 0 && !strings.ContainsRune("rtx", rune(verdict)) {
+			t.Fatal("bad cmd", tok)
+		}
+		early.set(verdict)
+		goodCreds := false
 		switch {
 		case cmd == "E":
 			code, err = w.cmd("EHLO client.example.org")
@@ -235,6 +363,7 @@ func c14RunGate(t *testing.T, out *vh.Out, tgt *testutils.Target, s *c14GateScn)
 				t.Fatal("bad cmd", cmd)
 			}
 			resp := vh.UnhexRunes(f[1]) + "\x00" + vh.UnhexRunes(f[2]) + "\x00" + string(vh.UnhexBytes(f[3]))
+			goodCreds = vh.UnhexRunes(f[2]) == c14User && string(vh.UnhexBytes(f[3])) == c14Pass && (f[1] == "-" || vh.UnhexRunes(f[1]) == c14User)
 			if i%2 == 0 {
 				code, err = w.cmd("AUTH PLAIN %s", b64(resp))
 			} else {
@@ -248,6 +377,7 @@ func c14RunGate(t *testing.T, out *vh.Out, tgt *testutils.Target, s *c14GateScn)
 			if len(f) != 3 {
 				t.Fatal("bad cmd", cmd)
 			}
+			goodCreds = s.login && vh.UnhexRunes(f[1]) == c14User && string(vh.UnhexBytes(f[2])) == c14Pass
 			code, err = w.cmd("AUTH LOGIN")
 			if err == nil && code == 334 {
 				code, err = w.cmd("%s", b64(vh.UnhexRunes(f[1])))
@@ -265,12 +395,30 @@ func c14RunGate(t *testing.T, out *vh.Out, tgt *testutils.Target, s *c14GateScn)
 		}
 		codes = append(codes, fmt.Sprint(code))
 		out.Stat(fmt.Sprintf("gate.%s.%d", cmd[:1], code))
+		if n := early.takeCalls(); n > 0 {
+			out.Stat(fmt.Sprintf("gate.early-check-run-during.%s", cmd[:1]))
+			if verdict != 0 {
+				out.Stat(fmt.Sprintf("gate.early-check-run-during.%s.verdict-%c.reply-%d", cmd[:1], verdict, code))
+			}
+		}
 		// ---- the property on the real replies
 		if cmd[0] == 'A' && code == 235 {
 			authed = true
+			// the endpoint knows ONE account: a 235 for anything but its exact name and password (over an enabled mechanism,
+			// without a foreign authorization identity) is an authentication that succeeded without the current password
+			if !goodCreds {
+				out.Violation("C14/auth-accepts-wrong-password", line, fmt.Sprintf("command %d (%s) was answered 235; the only account is %q with password %q", i, cmd, c14User, c14Pass))
+			}
+		}
+		if cmd[0] == 'A' && code != 235 && goodCreds {
+			failedGoodAuth = true
+			out.Stat(fmt.Sprintf("gate.good-credentials-answered-%d", code))
 		}
 		if s.required && !authed && (cmd == "M" || cmd == "R" || cmd == "D") && code < 400 {
 			out.Violation("C14/mail-before-auth", line, fmt.Sprintf("command %d (%s) was answered %d on a submission endpoint before any successful AUTH", i, cmd, code))
+		}
+		if s.required && !authed && failedGoodAuth && cmd == "M" {
+			out.Stat(fmt.Sprintf("gate.mail-after-failed-auth-with-good-credentials.%d", code))
 		}
 		if cmd[0] == 'A' && code == 235 {
 			out.Stat("gate.auth-ok")
@@ -337,10 +485,11 @@ func TestVerifC14Gate(t *testing.T) {
 				testPort = strconv.Itoa(l.Addr().(*net.TCPAddr).Port)
 				l.Close()
 			}
-			endp := testEndpoint(t, mod, vauth.FixedAuth{User: c14User, Pass: c14Pass}, tgt, nil, []config.Node{})
+			early := &c14EarlyCheck{Check: &testutils.Check{InstName: "c14_early"}}
+			endp := testEndpoint(t, mod, vauth.FixedAuth{User: c14User, Pass: c14Pass}, tgt, []module.Check{early}, []config.Node{})
 			endp.saslAuth.EnableLogin = login
 			for _, s := range mine {
-				c14RunGate(t, out, tgt, s)
+				c14RunGate(t, out, tgt, early, s)
 			}
 			endp.Close()
 			out.Stat(fmt.Sprintf("gate.cfg.required=%v.login=%v", required, login))
